@@ -75,11 +75,14 @@ PZ = Pose('PZ', ((1, 0, 0), (0, 1, 0), (0, 0, 1)), 1, (0, 0, -2))
 P1 = Pose('P1', ((1, 2, 2), (2, 1, -2), (2, -2, 1)), F(1, 2), _T)       # 3/2 x isometry
 P2 = Pose('P2', ((2, 3, 6), (3, -6, 2), (6, 2, -3)), F(1, 4), _T)       # 7/4 x isometry
 P3 = Pose('P3', ((1, 1, 0), (1, 0, 1), (-1, 1, 1)), 1, _T)              # oblique lattice map
-POSES = {'P0': P0, 'PZ': PZ, 'P1': P1, 'P2': P2, 'P3': P3}
+# the xy-plane goes to an upright plane whose horizontal direction is (9,7)/4: direction ratios such as 7/9 do not
+# multiply back exactly in floating point (fl(fl(7/9)*9) != 7), which exposes eliminations without proper pivoting
+P4 = Pose('P4', ((9, 0, 7), (7, 0, -9), (0, 4, 0)), F(1, 4), (F(-1, 4), F(-5, 2), F(-9, 4)))
+POSES = {'P0': P0, 'PZ': PZ, 'P1': P1, 'P2': P2, 'P3': P3, 'P4': P4}
 
 
 def poses(tier):
-    return [PZ, P1] if tier == 'quick' else [P0, PZ, P1, P2, P3]
+    return [PZ, P1] if tier == 'quick' else [P0, PZ, P1, P2, P3, P4]
 
 
 # --------------------------------------------------------------------------- bodies
